@@ -2,6 +2,7 @@
 //! usage: pngv <prop> --tier quick|thorough --seed N --out DIR
 //!        pngv <prop> --replay-case "<case line>"
 mod c14;
+mod alloc;
 mod c01;
 mod c02;
 mod c03;
@@ -19,6 +20,7 @@ mod ops;
 mod c16;
 mod c18;
 mod c19;
+mod c20;
 mod c15;
 mod gen;
 mod pngbuild;
@@ -28,6 +30,9 @@ mod refimpl;
 mod util;
 
 use util::Args;
+
+#[global_allocator]
+static GLOBAL: alloc::Counting = alloc::Counting;
 
 fn main() {
     // keep panic messages out of stderr noise: the harness records them itself
@@ -90,6 +95,7 @@ fn main() {
             "C16" => c16::replay(case),
             "C18" => c18::replay(case),
             "C19" => c19::replay(case),
+            "C20" => c20::replay(case),
             _ => "unknown-property".to_string(),
         };
         println!("{}", r);
@@ -113,6 +119,7 @@ fn main() {
         "C16" => c16::run(&a),
         "C18" => c18::run(&a),
         "C19" => c19::run(&a),
+        "C20" => c20::run(&a),
         _ => {
             eprintln!("unknown property {}", prop);
             std::process::exit(2);
